@@ -79,6 +79,11 @@ func (s *CollapsingLowestDenseStore) extendRange(newMinIndex, newMaxIndex int) {
 	if s.IsEmpty() {
 		initialLength := s.getNewLength(newMinIndex, newMaxIndex)
 		s.bins = append(s.bins, make([]float64, initialLength)...)
+		if newMaxIndex-newMinIndex+1 > len(s.bins) {
+			// The requested range is wider than the store: start collapsed instead of indexing out of the array.
+			newMinIndex = newMaxIndex - len(s.bins) + 1
+			s.isCollapsed = true
+		}
 		s.offset = newMinIndex
 		s.minIndex = newMinIndex
 		s.maxIndex = newMaxIndex
